@@ -498,6 +498,16 @@ elif (fr['number'].tolist() != n.tolist() or fr['position_ver'].tolist() != v.to
       or fr['init_pos_hor'].tolist() != h.tolist() or fr['position_z'].tolist() != [0.1, 0.2, 0.3] or fr['energy'].tolist() != [1.0, 2.0, 3.0] or fr['velocity_ver'].tolist() != [10.0, 20.0, 30.0]
       or fr['velocity_hor'].tolist() != [40.0, 50.0, 60.0] or fr['velocity_z'].tolist() != [70.0, 80.0, 90.0] or fr['charge'].tolist() != [-1, -1, -1]):
     VIOLATED, DETAIL = True, 'cluster table columns do not hold the quantities they are named after: ' + repr(fr.to_dict('list'))
+if not VIOLATED:
+    # packets of less than one electron, zero packets and whole ones, on top of an array addition: every non-negative amount is credited
+    det2 = VP.detector(rows=4, cols=5, pixel_vert_size=10.0, pixel_horz_size=20.0)
+    det2.charge.add_charge_array(np.full((4, 5), 2.0))
+    amounts = np.array([0.5, 0.25, 0.75, 0.0, 3.0, 0.5]); pv = np.array([5.0, 15.0, 39.0, 1.0, 25.0, 5.0]); ph = np.array([10.0, 30.0, 99.0, 1.0, 50.0, 10.0]); z = np.zeros(6)
+    det2.charge.add_charge(particle_type='e', particles_per_cluster=amounts, init_energy=z, init_ver_position=pv, init_hor_position=ph, init_z_position=z, init_ver_velocity=z, init_hor_velocity=z, init_z_velocity=z)
+    want = np.full((4, 5), 2.0)
+    for a, y, x in zip(amounts, pv, ph): want[int(y // 10.0), int(x // 20.0)] += a
+    if not np.allclose(det2.charge.array, want, rtol=0, atol=1e-12):
+        VIOLATED, DETAIL = True, f'array of 2.0 everywhere + clusters of {amounts.tolist()} e-: charge.array differs from the sum by {(det2.charge.array - want).ravel()[np.flatnonzero(~np.isclose(det2.charge.array, want))][:4].tolist()} in pixels {np.argwhere(~np.isclose(det2.charge.array, want))[:4].tolist()}'
 try:
     det.charge.add_charge(particle_type='e', particles_per_cluster=np.array([1.0, 2.0]), init_energy=np.zeros(1), init_ver_position=np.zeros(2), init_hor_position=np.zeros(2),
                           init_z_position=np.zeros(2), init_ver_velocity=np.zeros(2), init_hor_velocity=np.zeros(2), init_z_velocity=np.zeros(2))
@@ -603,6 +613,33 @@ def add_charge_unit(u: Unit):
         return NONE
     cfg.contracts[f"{CH}::Charge.create_charges"] = Contract(f"{CH}::Charge.create_charges", create, "clusters.columns")
     cfg.contracts[f"{CH}::Charge.add_charge_dataframe"] = Contract(f"{CH}::Charge.add_charge_dataframe", add_df, "binning / mixed")
+    # pandas at the boundary: table[<column name>] is a column, a comparison of a column is a row mask, table[<mask>] is ANOTHER table
+    # (some rows of the first one) -- so a table that went through a selection is not "the table create_charges returned"
+
+    def df_getitem(ex, obj, idx, fr):
+        if isinstance(idx, VStr):
+            return VOpaque("dfcol", ex.st.fresh_int("col"), {"of": obj, "name": idx})
+        n = ex.st.fresh_int("n_selected")
+        ex.st.assume(z3.And(n >= 0, n <= z_int(obj.info["nrows"])))
+        sel = D.df_obj(ex, n)
+        sel.info["selected_from"] = obj
+        return sel
+    cfg.lib_overrides[("getitem", "df")] = df_getitem
+    cfg.lib_overrides[("compare", "dfcol")] = lambda ex, op, a, b, fr: VOpaque("dfmask", ex.st.fresh_int("mask"), {})
+    cfg.lib_overrides[("opaque_attr", "dfmask")] = lambda ex, obj, name, fr: VLib("dfmask." + name, obj)
+    for red in ("all", "any"):
+        cfg.lib_overrides["dfmask." + red] = lambda ex, f, args, kwargs, fr: VBool(ex.st.fresh_bool("mask_reduction"))
+    cfg.lib_overrides[("neg", "dfmask")] = lambda ex, v: VOpaque("dfmask", ex.st.fresh_int("mask"), {})
+    base_df_attr = cfg.lib_overrides[("opaque_attr", "df")]
+
+    def df_attr2(ex, obj, name, fr):
+        if name == "empty":
+            return VBool(z_int(obj.info["nrows"]) == 0)
+        if name == "reset_index":
+            return VLib("df.reset_index", obj)
+        return base_df_attr(ex, obj, name, fr)
+    cfg.lib_overrides[("opaque_attr", "df")] = df_attr2
+    cfg.lib_overrides["df.reset_index"] = lambda ex, f, args, kwargs, fr: f.self_val
 
     def setup(ex):
         D.mk_detector(ex, u)
@@ -615,6 +652,9 @@ def add_charge_unit(u: Unit):
             u.oblige(p, "clusters.add.no_raise", False, {"exc": p.exc_name()}, CLUSTER_REPLAY)
             continue
         r = p.ex.rec
+        if "added" not in r:
+            u.oblige(p, "clusters.add.the_new_table_is_added_to_this_container", False, {"outcome": "returned without adding the table"}, CLUSTER_REPLAY)
+            continue
         a, k = r.get("create", ([], {}))
         ok = not a and set(k) == set(PARAMS) | {"particle_type"} and all(k[n] is p.ex.cols[n] for n in PARAMS) and isinstance(k.get("particle_type"), VStr)
         u.oblige(p, "clusters.add.every_argument_under_its_own_name", bool(ok), {"wrong": str([n for n in PARAMS if k.get(n) is not p.ex.cols[n]])}, CLUSTER_REPLAY)
